@@ -70,6 +70,12 @@ func c06Run(r *core.Run) {
 	nb := func(i int) time.Time { return nbT[i] }
 	early := T0.AddDate(-15, 0, 0)
 	poolWin := world.Window{NotBefore: T0.AddDate(-20, 0, 0), NotAfter: T0.AddDate(40, 0, 0)}
+	if r.Index%4 == 3 {
+		// the trusted root itself is the first thing to expire, long before any copy of it carried in the quote
+		// or in a header (a root re-issued with a longer life has reached the quotes, not yet the caller's pool)
+		poolWin.NotAfter = T0.AddDate(0, 0, 100+t.Draw(200))
+		r.Probe("trusted_root_expires_before_its_carried_copies")
+	}
 
 	A := w.A
 	A.RootSpec.Win = poolWin
@@ -277,6 +283,28 @@ func c06Run(r *core.Run) {
 		}
 		r.Fault("clock:at_expiry_of_"+a.name, true)
 	}
+	// the trusted root's own expiry, at each of the three time-set fields whose paths end in it (after the
+	// control at T0 has verified the very same chains successfully)
+	for _, d := range []time.Duration{-time.Second, 0, time.Nanosecond, time.Second, 24 * time.Hour} {
+		for _, f := range []int{world.TPck, world.TTcb, world.TQE} {
+			item := fmt.Sprintf("expiry:trusted-root%+s:field=%s", offName(d, subSecond), fieldNames[f])
+			if !r.Item(item) {
+				continue
+			}
+			ts := base
+			ts[f] = poolWin.NotAfter.Add(d)
+			for level := O0; level <= O2; level++ {
+				if level < O1 && f != world.TPck {
+					continue
+				}
+				check("control@T0", "control", nil, level, base)
+				check(item, "trusted-root", nil, level, ts)
+			}
+			r.State("expiry trusted-root d=%s field=%s", offName(d, subSecond), fieldNames[f])
+			r.EndItem()
+		}
+	}
+	r.Fault("clock:at_expiry_of_the_trusted_root", true)
 	// notBefore of the roles on validated paths
 	for ai := range arts {
 		a := &arts[ai]
@@ -403,7 +431,7 @@ func init() {
 			return 24
 		},
 		Run:         c06Run,
-		MustProbe:   []string{"instant_exactly_at_expiry", "instant_inside_the_second_after_expiry", "instant_carried_in_non_utc_zone", "documents_share_one_issuer_chain", "unusual_issue_date"},
+		MustProbe:   []string{"instant_exactly_at_expiry", "instant_inside_the_second_after_expiry", "instant_carried_in_non_utc_zone", "documents_share_one_issuer_chain", "unusual_issue_date", "trusted_root_expires_before_its_carried_copies"},
 		SimTimeNote: "span of simulated instants covered by the monotone timeline of each world (years)",
 	})
 }
